@@ -362,10 +362,15 @@ LAW(R1_reproducible, RC, 6000, 120000, 420, "script of >= 5 calls with >= 2 cont
   c.desc << "seed " << seed << " other seed " << other << " script:";
   for (int k = 0; k < nops; ++k) { ops.push_back(genOp(c)); c.desc << " " << showOp(ops.back()); if (continuousKind(ops.back().kind)) ++ncont; }
   c.nt(nops >= 5 && ncont >= 2);
+  // four runs: seed, seed again at once (whatever state the first run left behind - e.g. a cached spare normal deviate - must be
+  // wiped by setSeed), another seed (disturbs the generator), seed once more. The immediate repetition makes the law independent
+  // of the history of the process: a state that survives setSeed shows in a fresh process too, so the replay file reproduces it.
   vector<uint64_t> A = runScript(c, ops, seed);
-  vector<uint64_t> B = runScript(c, ops, other);   // also disturbs the generator between the two runs with `seed`
+  vector<uint64_t> A2 = runScript(c, ops, seed);
+  vector<uint64_t> B = runScript(c, ops, other);
   vector<uint64_t> C = runScript(c, ops, seed);
-  CHECK(A.size() == C.size(), "same seed, same script: " << A.size() << " values, then " << C.size());
+  CHECK(A.size() == C.size() && A.size() == A2.size(), "same seed, same script: " << A.size() << " values, then " << A2.size() << " and " << C.size());
+  for (size_t i = 0; i < A.size(); ++i) CHECK(A[i] == A2[i], "same seed, same script, run twice in a row: value #" << i << " differs (bit patterns " << hex << A[i] << " vs " << A2[i] << dec << ")");
   for (size_t i = 0; i < A.size(); ++i) CHECK(A[i] == C[i], "same seed, same script: value #" << i << " differs (bit patterns " << hex << A[i] << " vs " << C[i] << dec << ")");
   if (ncont >= 2) CHECK(A != B, "seeds " << seed << " and " << other << " gave the identical sequence of " << A.size() << " values");
 }
